@@ -71,4 +71,68 @@ CANARIES: Dict[str, Dict[str, Any]] = {
         new="    scaled_softmax = scale_elementwise(\n        _unscaled_softmax, output_scale, grad_input_scale, None\n    )",
         job="op:softmax[constraint=gmean,dtype=None]", expect=["C05:functional.softmax"],
     ),
+    "scaled_parameters-no-clone": dict(
+        props=["C11"], file="unit_scaling/optim.py", module="unit_scaling.optim",
+        old="                    param_lr = param_lr.clone()\n", new="                    pass\n",
+        job="c11:scaled_parameters[allow=False,entry=dict,global_lr=float,group_lr=tensor,group_wd=False,independent=True,tagged=True]",
+        expect=["scaled_tensor_lr_is_a_fresh_tensor", "frame_no_caller_state_written"],
+    ),
+    "scaled_parameters-no-copy": dict(
+        props=["C11"], file="unit_scaling/optim.py", module="unit_scaling.optim",
+        old="else entry.copy()", new="else entry",
+        job="c11:scaled_parameters[allow=False,entry=dict,global_lr=float,group_lr=absent,group_wd=False,independent=True,tagged=True]",
+        expect=["callers_group_dict_unchanged", "frame_no_caller_state_written"],
+    ),
+    "scaled_parameters-wd-multiplied": dict(
+        props=["C11"], file="unit_scaling/optim.py", module="unit_scaling.optim",
+        old="param_weight_decay /= float(param_lr)", new="param_weight_decay *= float(param_lr)",
+        job="c11:scaled_parameters[allow=False,entry=tensor,global_lr=float,group_lr=absent,group_wd=False,independent=True,tagged=True]",
+        expect=["independent_weight_decay_lr_times_wd_is_requested_decay"],
+    ),
+    "scaled_parameters-lr-not-scaled-for-group-lr": dict(
+        props=["C10"], file="unit_scaling/optim.py", module="unit_scaling.optim",
+        old="                param_lr *= lr_scale_func(param)", new="                param_lr *= lr_scale_func(param) if lr is None else 1.0",
+        job="c11:scaled_parameters[allow=False,entry=dict,global_lr=float,group_lr=float,group_wd=False,independent=True,tagged=True]",
+        expect=["group_lr_is_source_lr_times_factor"],
+    ),
+    "adam-weight-exponent-sign": dict(
+        props=["C10", "C12"], file="unit_scaling/optim.py", module="unit_scaling.optim",
+        old="return scale * _get_fan_in(param) ** -0.5", new="return scale * _get_fan_in(param) ** 0.5",
+        job="c10:lr_rule[adam,rank=2,weight,depth=int]", expect=["factor_squared_matches_u-muP_table"],
+    ),
+    "fan_in-3d-drops-kernel": dict(
+        props=["C10"], file="unit_scaling/optim.py", module="unit_scaling.optim",
+        old="return param.shape[1] * param.shape[2]", new="return param.shape[1]",
+        job="c10:_get_fan_in[rank=3]", expect=["_get_fan_in:body==contract"],
+    ),
+    "sgd-class-uses-adam-rule": dict(
+        props=["C10"], file="unit_scaling/optim.py", module="unit_scaling.optim",
+        old="            lr_scale_func_sgd(readout_constraint),", new="            lr_scale_func_adam,",
+        job="c10:SGD.__init__[rc=to_output_scale]", expect=["uses_sgd_output_scaled_readout_rule"],
+    ),
+    "residual_add-swapped-weights": dict(
+        props=["C06"], file=F, module=FM,
+        old="    skip = scale_fwd(skip, 1 / denom)", new="    skip = scale_fwd(skip, tau / denom)",
+        job="c06:residual[sequence]", expect=["C06:functional.residual_sequence:skip_weight", "mixing_weights"],
+    ),
+    "residual_split-uses-scale_fwd": dict(
+        props=["C06"], file=F, module=FM,
+        old="    residual = scale_bwd(input, tau / denom)", new="    residual = scale_fwd(input, tau / denom)",
+        job="c06:residual[sequence]", expect=["C06:functional.residual_sequence"],
+    ),
+    "residual-denominator-1-plus-tau": dict(
+        props=["C06"], file=F, module=FM,
+        old="    denom = (1 + tau**2) ** 0.5\n    residual = scale_fwd", new="    denom = (1 + tau) ** 0.5\n    residual = scale_fwd",
+        job="c06:residual[sequence]", expect=["C06:functional.residual_sequence"],
+    ),
+    "tau-rule-wrong-count": dict(
+        props=["C07"], file="unit_scaling/core/functional.py", module="unit_scaling.core.functional",
+        old="n_attn = (index + 1) // 2", new="n_attn = index // 2",
+        job="c07:tau_rule[parity=1]", expect=["tau_sq_times_S_equals_a_sq"],
+    ),
+    "tau-rule-alpha-swap": dict(
+        props=["C07"], file="unit_scaling/core/functional.py", module="unit_scaling.core.functional",
+        old="(alpha_attn if (index % 2) == 0 else alpha_mlp)", new="(alpha_mlp if (index % 2) == 0 else alpha_attn)",
+        job="c07:tau_rule[parity=0]", expect=["tau_sq_times_S_equals_a_sq"],
+    ),
 }
